@@ -88,7 +88,7 @@ type Chooser interface {
 type plainChooser struct{}
 
 func (plainChooser) Partition(n int) []int { return []int{n} }
-func (plainChooser) SizePrefix() bool       { return false }
+func (plainChooser) SizePrefix() bool      { return false }
 
 var Plain Chooser = plainChooser{}
 
@@ -555,3 +555,6 @@ func render(b *strings.Builder, d any) {
 		fmt.Fprintf(b, "?%T", d)
 	}
 }
+
+// DecodeCount reads one block-count varint (recorded as a "count" site).
+func (d *Decoder) DecodeCount() (int64, error) { return d.long("count") }
